@@ -111,6 +111,7 @@ type NodeLit struct {
 	Kind     string            // Type: "..."
 	Fields   []string          // keys set in the literal, in order
 	Exprs    map[string]string // key -> normalised source of the value (after inlining straight-line locals)
+	RawExprs map[string]string // key -> normalised source of the value as written
 	IDFmt    []IDAtom
 	Guard    string // extra if-condition around the literal inside the case ("" if none)
 	Line     int
@@ -383,6 +384,20 @@ func leanAtom(a IDAtom) string {
 	return ""
 }
 
+// wiring renders which expression every attribute field of the literal is set from (ID and the location
+// fields are reported separately).
+func wiring(l NodeLit) string {
+	parts := []string{}
+	for _, f := range l.Fields {
+		switch f {
+		case "ID", "LineNumber", "CodeSnippet", "File", "Type":
+			continue
+		}
+		parts = append(parts, fmt.Sprintf("(%s, %s)", leanStr(f), leanStr(l.RawExprs[f])))
+	}
+	return "[" + strings.Join(parts, ", ") + "]"
+}
+
 func resolveExtractMethodName(f *ast.File) {
 	fd := findFunc(f, "extractMethodName")
 	if fd == nil {
@@ -500,7 +515,7 @@ func nodeLiterals(f *ast.File) []NodeLit {
 						if !ok || src(cl.Type) != "Node" {
 							continue
 						}
-						nl := NodeLit{TsTypes: ts, Ops: ops, Exprs: map[string]string{}, Guard: guard, Line: fset.Position(cl.Pos()).Line}
+						nl := NodeLit{TsTypes: ts, Ops: ops, Exprs: map[string]string{}, RawExprs: map[string]string{}, Guard: guard, Line: fset.Position(cl.Pos()).Line}
 						var idExpr ast.Expr
 						for _, el := range cl.Elts {
 							kv := el.(*ast.KeyValueExpr)
@@ -508,6 +523,7 @@ func nodeLiterals(f *ast.File) []NodeLit {
 							nl.Fields = append(nl.Fields, key)
 							val := substitute(kv.Value, env)
 							nl.Exprs[key] = src(val)
+							nl.RawExprs[key] = src(kv.Value)
 							if key == "Type" {
 								k, ok := strLit(kv.Value)
 								if !ok {
@@ -874,10 +890,10 @@ func main() {
 		if i == len(lits)-1 {
 			sep = ""
 		}
-		fmt.Fprintf(&b, "  { tsTypes := %s, ops := %s, kind := %s, fields := %s,\n    idFmt := [%s],\n    line := %s, snippet := %s, file := %s, guard := %s, added := %v }%s\n",
+		fmt.Fprintf(&b, "  { tsTypes := %s, ops := %s, kind := %s, fields := %s,\n    idFmt := [%s],\n    line := %s, snippet := %s, file := %s, guard := %s, added := %v,\n    wiring := %s }%s\n",
 			leanStrList(l.TsTypes), leanStrList(l.Ops), leanStr(l.Kind), leanStrList(l.Fields),
 			strings.Join(atoms, ", "),
-			leanStr(l.Exprs["LineNumber"]), leanStr(l.Exprs["CodeSnippet"]), leanStr(l.Exprs["File"]), leanStr(l.Guard), l.AddNoded, sep)
+			leanStr(l.Exprs["LineNumber"]), leanStr(l.Exprs["CodeSnippet"]), leanStr(l.Exprs["File"]), leanStr(l.Guard), l.AddNoded, wiring(l), sep)
 	}
 	b.WriteString("]\n\n")
 	fmt.Fprintf(&b, "def nodePointerFields : List String := %s\n\n", leanStrList(ptrs))
